@@ -9,7 +9,7 @@
 From Coq Require Import List ZArith NArith Bool Arith Lia.
 Import ListNotations.
 From DD Require Import Base.Sx Base.PyStr Base.Value Base.ValueFacts Path.PathModel Diff.Tree Diff.DiffModel
-  Diff.DiffFaithful Delta.DeltaModel Delta.DeltaVerify Delta.DeltaVerifyIndep Delta.DeltaReverse Delta.DeltaReverseDiff Delta.DeltaReverseSym.
+  Diff.DiffFaithful Delta.DeltaModel Delta.DeltaVerify Delta.DeltaVerifyIndep Delta.DeltaReverse Delta.DeltaReverseDiff Delta.DeltaReverseSym Delta.DeltaReverseDefault.
 
 Definition ops_table_disjointb (tbl : list (path * list opcode)) : bool :=
   forallb (fun pe => ops_ok 0 (snd pe)) tbl.
@@ -132,6 +132,23 @@ Proof.
     apply andb_true_iff in H2 as [H2 H3]. split; [|apply IHl; exact H3].
     destruct (assoc k kvs0); [apply Hk; exact H2|exact I].
 Qed.
+
+(* ---- no_clash (guard of the default-mode inversion theorem) ---- *)
+Definition no_clashb (es : list entry) : bool :=
+  forallb (fun a => forallb (fun r => negb (is_kind KIterAdd a && is_kind KIterRem r && path_eqb (ep1 a) (ep1 r))) es) es.
+
+Lemma path_eqb_rfl p : path_eqb p p = true.
+Proof. induction p as [|k p IH]; [reflexivity|]. cbn. rewrite pkey_eqb_refl. exact IH. Qed.
+
+Lemma no_clashb_sound es : no_clashb es = true -> no_clash es.
+Proof.
+  intros H a r Ha Hr Ka Kr E. unfold no_clashb in H.
+  eapply forallb_forall in H; [|exact Ha]. eapply forallb_forall in H; [|exact Hr].
+  unfold is_kind in H. rewrite Ka, Kr, E, path_eqb_rfl in H. discriminate.
+Qed.
+
+Definition sx_c08hyp6 (indep disj sym kn ko nc : bool) : sx :=
+  SL [sx_bool indep; sx_bool disj; sx_bool sym; sx_bool kn; sx_bool ko; sx_bool nc].
 
 Definition sx_c08hyp (indep disj sym kn : bool) : sx := SL [sx_bool indep; sx_bool disj; sx_bool sym; sx_bool kn].
 Definition sx_c08hyp5 (indep disj sym kn ko : bool) : sx := SL [sx_bool indep; sx_bool disj; sx_bool sym; sx_bool kn; sx_bool ko].
